@@ -37,7 +37,7 @@ CLAIMED["C07"] = dict(
    note="Claimed for value downlinks' command relief only. Not applicable / outside: consumer attach/sync/linked/unlinked sessions (async select loops over tokio mpsc, timers, FramedRead), MapBackpressure/MapOperationQueue (Recon key comparison), the write task itself - its caller protocol is mirrored from downlink/mod.rs, not encoded. One genuine defect found and repaired (C07-X1).",
    ref="DESIGN.md section 4, C07")
 CLAIMED["C14"] = dict(
-   text="Bounded symbolic model checking of the supply half at strategy level: the real SupplyBackpressure driven as Uplinks::{push,replace_and_pop} drive it while the remote's writer is lent out, over every sequence of pushes (item length 0..2 concrete, bytes symbolic) and writer hand-backs up to length 3 (quick; thorough: item lengths 0..2 and 12 seeded shapes of length 4): items handed out == items pushed - same order, same multiplicity, same bytes; one hand-back per item drains the queue.",
+   text="Bounded symbolic model checking of the supply half at strategy level: the real SupplyBackpressure driven as Uplinks::{push,replace_and_pop} drive it while the remote's writer is lent out, over every sequence of pushes (item length 0..2 concrete, bytes symbolic) and writer hand-backs up to length 3 (quick; thorough: item lengths 0..2): items handed out == items pushed - same order, same multiplicity, same bytes; one hand-back per item drains the queue.",
    note="Claimed for SupplyBackpressure only. Outside: command-lane handler invocation, ad hoc commands (CommandOutput/external_links), the Uplinks scheduler around the strategy (needs RemoteSender/byte channels), the agent-side SupplyLane queue, real channel writes and task interleavings. The caller protocol is mirrored from remotes/uplink/mod.rs, not encoded.",
    ref="DESIGN.md section 4, C14")
 
